@@ -3,65 +3,69 @@
    and Proofs/PolicyPre.v. *)
 From Coq Require Import List NArith ZArith Bool.
 From RB Require Import Base.Val Model.Policy Model.PolicyTable Model.PolicyPre Spec.PolicySpec
-  Proofs.Policy Proofs.PolicyTable Proofs.PolicyPre Proofs.PolicyWire Proofs.PolicyWf.
+  Model.PolicyGlobal Proofs.Policy Proofs.PolicyTable Proofs.PolicyPre Proofs.PolicyWire Proofs.PolicyWf Proofs.PolicyGlobal.
 Import ListNotations.
 Open Scope N_scope.
 
-(* 1. outside the known class C14-1, what the code returns is what the
-      reference semantics prescribes *)
-Theorem eval_code_eq_spec_outside_known :
-  forall (rc re rl : N -> N -> bool) (rxa : N -> list (list N) -> bool) a x r d r',
-    wf_assignment a -> ~ Known_C14_1 a ->
-    eval_code rc re rl a x r = Ok (d, r') -> eval_spec rc re rl rxa a x r d r'.
+(* 1. whatever the code returns is what the reference semantics prescribes,
+      for every well-formed assignment (every assignment the API can build is
+      well formed: theorem 10), every route, every regex / validation oracle *)
+Theorem eval_code_eq_spec :
+  forall (rc re rl : N -> N -> bool) (rxa : N -> list N -> bool) (rp : option (nlri -> N -> option N)) a x r d r',
+    wf_assignment a ->
+    eval_code rc re rl rxa rp a x r = Ok (d, r') -> eval_spec rc re rl rxa rp a x r d r'.
 Proof. exact eval_code_sound. Qed.
-Check eval_code_eq_spec_outside_known :
-  forall (rc re rl : N -> N -> bool) (rxa : N -> list (list N) -> bool) a x r d r',
-    wf_assignment a -> ~ Known_C14_1 a ->
-    eval_code rc re rl a x r = Ok (d, r') -> eval_spec rc re rl rxa a x r d r'.
-Print Assumptions eval_code_eq_spec_outside_known.
+Check eval_code_eq_spec :
+  forall (rc re rl : N -> N -> bool) (rxa : N -> list N -> bool) (rp : option (nlri -> N -> option N)) a x r d r',
+    wf_assignment a ->
+    eval_code rc re rl rxa rp a x r = Ok (d, r') -> eval_spec rc re rl rxa rp a x r d r'.
+Print Assumptions eval_code_eq_spec.
 
 (* 2. the reference semantics determines verdict and route *)
 Theorem eval_spec_is_functional :
-  forall (rc re rl : N -> N -> bool) (rxa : N -> list (list N) -> bool) x dflt l r d1 r1 d2 r2,
-    runs rc re rl rxa x dflt l r d1 r1 -> runs rc re rl rxa x dflt l r d2 r2 -> d1 = d2 /\ r1 = r2.
+  forall (rc re rl : N -> N -> bool) (rxa : N -> list N -> bool) (rp : option (nlri -> N -> option N))
+         x dflt l r d1 r1 d2 r2,
+    runs rc re rl rxa rp x dflt l r d1 r1 -> runs rc re rl rxa rp x dflt l r d2 r2 -> d1 = d2 /\ r1 = r2.
 Proof. exact eval_spec_functional. Qed.
 Check eval_spec_is_functional :
-  forall (rc re rl : N -> N -> bool) (rxa : N -> list (list N) -> bool) x dflt l r d1 r1 d2 r2,
-    runs rc re rl rxa x dflt l r d1 r1 -> runs rc re rl rxa x dflt l r d2 r2 -> d1 = d2 /\ r1 = r2.
+  forall (rc re rl : N -> N -> bool) (rxa : N -> list N -> bool) (rp : option (nlri -> N -> option N))
+         x dflt l r d1 r1 d2 r2,
+    runs rc re rl rxa rp x dflt l r d1 r1 -> runs rc re rl rxa rp x dflt l r d2 r2 -> d1 = d2 /\ r1 = r2.
 Print Assumptions eval_spec_is_functional.
 
-(* 3. inside the known class the full statement is false (finding C14-1) *)
-Theorem eval_code_eq_spec_refuted :
-  exists (rxa : N -> list (list N) -> bool) a x r,
-    Known_C14_1 a /\ wf_assignment a /\
-    (forall rc re rl, eval_code rc re rl a x r = Ok (DAccept, r)) /\
-    (forall rc re rl, eval_spec rc re rl rxa a x r DReject r).
-Proof. exact eval_code_eq_spec_refuted_lemma. Qed.
-Check eval_code_eq_spec_refuted :
-  exists (rxa : N -> list (list N) -> bool) a x r,
-    Known_C14_1 a /\ wf_assignment a /\
-    (forall rc re rl, eval_code rc re rl a x r = Ok (DAccept, r)) /\
-    (forall rc re rl, eval_spec rc re rl rxa a x r DReject r).
-Print Assumptions eval_code_eq_spec_refuted.
+(* 3. finding C14-1 against the code before its repair: a general as-path
+      pattern was never evaluated *)
+Theorem aspath_regex_ignored_pre_fix_refuted :
+  exists s x r,
+    cond_aspath_noregex_pre MAny s (aspath_segs 6 [2; 1; 0; 0; 253; 233]) = false /\
+    forall rc re rl rp,
+      cond_holds rc re rl (fun _ _ => true) rp x r (CSet 1 MAny (SAsPath s)).
+Proof. exact aspath_regex_ignored_refuted. Qed.
+Check aspath_regex_ignored_pre_fix_refuted :
+  exists s x r,
+    cond_aspath_noregex_pre MAny s (aspath_segs 6 [2; 1; 0; 0; 253; 233]) = false /\
+    forall rc re rl rp,
+      cond_holds rc re rl (fun _ _ => true) rp x r (CSet 1 MAny (SAsPath s)).
+Print Assumptions aspath_regex_ignored_pre_fix_refuted.
 
 (* 4. evaluation never panics on attribute lists the API can produce *)
 Theorem eval_never_panics_api :
-  forall (rc re rl : N -> N -> bool) a x r,
-    api_attrs (r_attrs r) -> exists d r', eval_code rc re rl a x r = Ok (d, r').
+  forall (rc re rl : N -> N -> bool) (rxa : N -> list N -> bool) (rp : option (nlri -> N -> option N)) a x r,
+    api_attrs (r_attrs r) -> exists d r', eval_code rc re rl rxa rp a x r = Ok (d, r').
 Proof. exact C14_eval_never_panics_api. Qed.
 Check eval_never_panics_api :
-  forall (rc re rl : N -> N -> bool) a x r,
-    api_attrs (r_attrs r) -> exists d r', eval_code rc re rl a x r = Ok (d, r').
+  forall (rc re rl : N -> N -> bool) (rxa : N -> list N -> bool) (rp : option (nlri -> N -> option N)) a x r,
+    api_attrs (r_attrs r) -> exists d r', eval_code rc re rl rxa rp a x r = Ok (d, r').
 Print Assumptions eval_never_panics_api.
 
 (* 5. ... nor on attribute lists satisfying the wire decoder's invariants *)
 Theorem eval_never_panics_wire :
-  forall (rc re rl : N -> N -> bool) a x r,
-    wire_attrs (r_attrs r) -> exists d r', eval_code rc re rl a x r = Ok (d, r').
+  forall (rc re rl : N -> N -> bool) (rxa : N -> list N -> bool) (rp : option (nlri -> N -> option N)) a x r,
+    wire_attrs (r_attrs r) -> exists d r', eval_code rc re rl rxa rp a x r = Ok (d, r').
 Proof. exact C14_eval_never_panics_wire. Qed.
 Check eval_never_panics_wire :
-  forall (rc re rl : N -> N -> bool) a x r,
-    wire_attrs (r_attrs r) -> exists d r', eval_code rc re rl a x r = Ok (d, r').
+  forall (rc re rl : N -> N -> bool) (rxa : N -> list N -> bool) (rp : option (nlri -> N -> option N)) a x r,
+    wire_attrs (r_attrs r) -> exists d r', eval_code rc re rl rxa rp a x r = Ok (d, r').
 Print Assumptions eval_never_panics_wire.
 
 (* 6. every CRUD call preserves the reference invariant; it holds along every
@@ -105,6 +109,33 @@ Check crud_referenced_frozen :
       /\ lookup_pol (p_name p) (t_pols t') = Some p).
 Print Assumptions crud_referenced_frozen.
 
+(* 7b. the same at the level of the daemon's Global: per-peer export-policy
+       overrides are users too.  The invariant (table invariant + every policy
+       held by a peer's override is the table's entry of that name) is preserved
+       by every modelled call and holds along every history *)
+Theorem global_preserves_references :
+  (forall g o g' code, grefs_ok g -> gstep g o = Ok (g', code) -> grefs_ok g') /\
+  (forall l, grefs_ok (grun_history empty_global l)).
+Proof. exact C14_global_preserves_references. Qed.
+Check global_preserves_references :
+  (forall g o g' code, grefs_ok g -> gstep g o = Ok (g', code) -> grefs_ok g') /\
+  (forall l, grefs_ok (grun_history empty_global l)).
+Print Assumptions global_preserves_references.
+
+(* 7c. what a surviving per-peer override references is neither deleted nor changed *)
+Theorem global_referenced_frozen :
+  forall g o g' code, grefs_ok g -> gstep g o = Ok (g', code) ->
+  forall peer a p, In (peer, Some a) (g_peers g) -> In (peer, Some a) (g_peers g') -> In p (as_pols a) ->
+    lookup_pol (p_name p) (t_pols (g_table g')) = lookup_pol (p_name p) (t_pols (g_table g))
+    /\ lookup_pol (p_name p) (t_pols (g_table g')) = Some p.
+Proof. exact C14_global_referenced_frozen. Qed.
+Check global_referenced_frozen :
+  forall g o g' code, grefs_ok g -> gstep g o = Ok (g', code) ->
+  forall peer a p, In (peer, Some a) (g_peers g) -> In (peer, Some a) (g_peers g') -> In p (as_pols a) ->
+    lookup_pol (p_name p) (t_pols (g_table g')) = lookup_pol (p_name p) (t_pols (g_table g))
+    /\ lookup_pol (p_name p) (t_pols (g_table g')) = Some p.
+Print Assumptions global_referenced_frozen.
+
 (* 9. on an AS_PATH the wire decoder accepts, the byte-level iterator yields
       exactly the segments and as_path_length is the unbounded hop count *)
 Theorem wire_aspath_decoded :
@@ -115,6 +146,22 @@ Check wire_aspath_decoded :
   forall segs a, wire_path segs -> a_data a = DBin (enc_path segs) ->
     aspath_iter a = Ok (map snd segs) /\ as_path_length a = Ok (hops segs).
 Print Assumptions wire_aspath_decoded.
+
+(* 9b. on such an AS_PATH the text general patterns are matched against is the
+       segments printed GoBGP style, and the origin AS is the last AS of a
+       final non-empty AS_SEQUENCE *)
+Theorem wire_aspath_rendered :
+  forall segs a, wire_path segs -> a_data a = DBin (enc_path segs) ->
+    render_path (enc_path segs) = join [32] (map (fun s => seg_string (fst s) (snd s)) segs) /\
+    as_path_origin a = Ok (let '(t, v) := last segs (0, []) in
+                           if t =? 2 then match rev v with x :: _ => Some x | [] => None end else None).
+Proof. exact C14_wire_aspath_rendered. Qed.
+Check wire_aspath_rendered :
+  forall segs a, wire_path segs -> a_data a = DBin (enc_path segs) ->
+    render_path (enc_path segs) = join [32] (map (fun s => seg_string (fst s) (snd s)) segs) /\
+    as_path_origin a = Ok (let '(t, v) := last segs (0, []) in
+                           if t =? 2 then match rev v with x :: _ => Some x | [] => None end else None).
+Print Assumptions wire_aspath_rendered.
 
 (* 10. every assignment in force after any history of API calls satisfies the
        well-formedness hypothesis of theorem 1 *)
